@@ -246,6 +246,34 @@ def rmHolds (initial addrs : List String) (ob : RmObs) : Bool :=
 
 end Spec
 
+/-! ### `mode` cases: router histories mixing directory-mode and static-mode configurations, then dump → reload -/
+
+/-- what the harness sees of one router name: the live tables, whether the dumped file could be loaded again, and the tables
+built from the reloaded router -/
+structure ModeObs where
+  live : String
+  loadOk : Bool
+  reb : String
+  deriving Repr, DecidableEq
+
+/-- the model's observation (the directory gives its files back in configuration order: the observation — matching on a request
+grid — does not depend on the order of the virtual hosts) -/
+def modeObserveOne (o : Oracle) (s : State) (n : String) : ModeObs :=
+  let rl := reloadRouter (fun l => l) s n
+  ⟨renderRouter (liveRouters s n),
+   (match rl with
+    | some none => false
+    | _ => true),
+   renderRouter (rl.map (fun r => r.bind (build o)))⟩
+
+def modeObserve (o : Oracle) (rnames : List String) (s : State) : List ModeObs := rnames.map (modeObserveOne o s)
+
+namespace Spec
+/-- the dumped configuration loads again, and the routers built from it answer as the live ones -/
+def modeOne (ob : ModeObs) : Bool := ob.loadOk && ob.live == ob.reb
+def modeHolds (obs : List ModeObs) : Bool := obs.all modeOne
+end Spec
+
 /-- the model's observation of an `rm` case: cluster `c` created, given `hosts`, then `RemoveClusterHosts c addrs`. -/
 def rmObserve (o : Oracle) (hosts : List Host) (addrs : List String) : Spec.RmObs :=
   let s0 := run o [.addOrUpdateCluster "c" 1 [], .updateHosts "c" hosts]
